@@ -15,6 +15,61 @@ COMMON_NOTE = ("Trusted: Coq 8.16.1 kernel and vm_compute (no native_compute, no
                "from the source by tools/translate.py; CPython/third-party semantics as modelled in coq/theories/Prelude.")
 
 CHECKS = {
+    "C03": dict(
+        text=("Coq theorems by induction over arbitrary histories of the SSDP device tracker (search responses, alive / update "
+              "/ byebye / other advertisements, M-SEARCH echoes, purges; arbitrary non-monotone time stamps, any devices, types, "
+              "locations, CACHE-CONTROL texts; ip_version_from_location an unconstrained oracle): the bookkeeping invariant "
+              "(distinct names, purge watermark below every validity, latest location carries the validity) holds in every "
+              "reachable state, one step is characterised in the statement's vocabulary, and the five executable clauses "
+              "(presence, purged, byebye_exact, invalid_inert, valid_to with the 900 s default pinned in the spec) hold of every "
+              "run. Constants and the validity predicates' literals are regenerated from ssdp_listener.py. The model is run "
+              "against a real SsdpListener fed datagrams built by build_ssdp_packet under a scripted clock."),
+        technique="Coq proof (state invariant + step characterisation + induction over histories, header maps via the C16 refinement) + source-generated constants + differential correspondence",
+        design="§4 C03",
+    ),
+    "C04": dict(
+        text=("Coq theorems on the ingredients of the notification decision, for all header maps / tracker states: the code's "
+              "header comparison is true exactly when a non-volatile header present in both maps differs (the statement's "
+              "volatile list tied to the generated IGNORED_HEADERS), the combined headers at notification time are the search "
+              "headers overlaid by the advertisement headers header-by-header (through the C16 refinement), at most one "
+              "notification per message. The history-level clauses notify_exact and snapshot (expected notification and snapshot "
+              "computed from the history and the previously observed device map) are executable and are evaluated on the "
+              "implementation's and the model's observations on every run; their proof for all histories is not done "
+              "(notify_exact_partial, see DESIGN.md)."),
+        technique="Coq proof of the decision ingredients (C16-based) + executable history-level spec evaluated in Coq on implementation observations (differential correspondence)",
+        design="§4 C04",
+    ),
+    "C07": dict(
+        text=("14 Coq theorems (closed, no axioms) about an executable model of UpnpAction.async_call / parse_response / "
+              "_parse_response_args / _parse_fault over XML trees, for every parser oracle: refinement to a category decode table "
+              "(fault / other status / not XML / success / strictness), padding and argument-order irrelevance, rendered success "
+              "and fault rows for all integers and all typed values via C08; tied to /repo by generated type tables and a per-run "
+              "differential check (exhaustive status x kind x strictness x padding scope + random rendered responses and a "
+              "malformed stream), with the spec clauses evaluated on the implementation's observations against a reference parse."),
+        technique="Coq proof + generated tables (C08) + differential correspondence with a recorded parser oracle",
+        design="§4 C07",
+    ),
+    "C10": dict(
+        text=("Coq proof: for all histories of NOTIFY requests over any number of services (any generated data type, allowed list, "
+              "range, strictness; any header list as dict or CIMultiDict; any parsed property set without repeated tags) the model "
+              "of handle_notify / notify_changed_state_variables selects the status by the 400/412/200 table, applies every "
+              "property to the variable its local name denotes independently of the others (stored / reads absent / old value "
+              "kept), calls on_event exactly once with exactly the replaced variables, and touches no other service; model tied to "
+              "/repo by differential correspondence after every request."),
+        technique="Coq proof (closed-form lemma for the update loop, induction over histories, C08 codec/validation model reused) + differential correspondence",
+        design="§4 C10",
+    ),
+    "C11": dict(
+        text=("Coq proof over an executable model of UpnpEventHandler.handle_notify / async_subscribe (backlog as repaired) and "
+              "notify_changed_state_variables: for ALL schedules (lists of atomic steps Notify / SubStart / SubResp, any number of "
+              "NOTIFYs, SIDs, services and subscribe calls) every early event NOTIFY is answered 200 and changes nothing; when a SID "
+              "is first granted the call returns it and every variable of the service holds the outcome of the latest early NOTIFY "
+              "that carried it; NOTIFYs for never-granted SIDs are non-interfering. Tied to the code by differential "
+              "correspondence on the real handler stepped one event-loop iteration at a time, exhaustive for k <= 3 NOTIFYs x all "
+              "variable-subset assignments x all response positions x a second service."),
+        technique="Coq proof (invariant + induction over schedules, refinement of handler state to history functions, simulation for erasure) + differential correspondence on a stepped asyncio loop",
+        design="§4 C11",
+    ),
     "C16": dict(
         text=("Refinement theorem (Coq): for every operation sequence in the stated domain the model of "
               "CaseInsensitiveDict (two Python dicts per object, aliasing by replace) is observationally equal to a "
